@@ -17,10 +17,6 @@ import (
 
 const c07Index = "c07"
 
-// c07FindingPrune: Index.Add prunes a full neighbour list with selectNeighbors on an UNSORTED candidate list
-// (see /verif/replays/C07/finding_add-prune-unsorted.json).
-const c07FindingPrune = "add-prune-unsorted"
-
 // c07IsHarnessError: messages starting with "harness:" report that the harness itself could not do
 // its work (engine would not open, ...); they make the run inconclusive, never a violation.
 func c07IsHarnessError(msg string) bool { return strings.Contains(msg, "harness: ") }
